@@ -259,7 +259,19 @@ func goCuratedWorlds() []wWorld {
 	deep := wMsg{Head: mh("Deep", of("a_B", 1, 0), of("A_E", 2, 0), of("a", 3, 0)), Nested: []wMsg{deepA}}
 	deep.Head.Oneofs = []string{"o"}
 	p3.Msgs = []wMsg{opt, deep}
+	// round-2 seeded change C16-r2-m2 (found again by the regression sweep when the random worlds
+	// stopped producing the shape): two different messages with the same Go package NAME and the same
+	// Go type name (different import paths) in one request - whatever is remembered per message must
+	// be keyed by the message, not by how it is spelled in Go
+	v1a := emptyF("acme/a/v1/item.proto", "acme.a.v1", "example.com/acme/a/v1;v1")
+	v1a.Msgs = []wMsg{{Head: mh("Item", f("foo", 1), f("get_foo", 2)), Nested: []wMsg{}}}
+	v1b := emptyF("acme/b/v1/item.proto", "acme.b.v1", "example.com/acme/b/v1;v1")
+	twin := wMsg{Head: mh("Item", f("reset", 1), of("string", 2, 0), of("item", 3, 0)), Nested: []wMsg{{Head: mh("Item"), Nested: []wMsg{}}}}
+	twin.Head.Oneofs = []string{"descriptor"}
+	v1b.Msgs = []wMsg{twin}
 	return []wWorld{{Files: []wFile{fl}, Targets: []string{"probe.proto"}},
 		{Files: []wFile{r0, r1, r2}, Targets: []string{"f1.proto", "dir0/f2.proto"}},
-		{Files: []wFile{p3}, Targets: []string{"probe3.proto"}}}
+		{Files: []wFile{p3}, Targets: []string{"probe3.proto"}},
+		{Files: []wFile{v1a, v1b}, Targets: []string{"acme/a/v1/item.proto", "acme/b/v1/item.proto"}},
+		{Files: []wFile{v1b, v1a}, Targets: []string{"acme/a/v1/item.proto", "acme/b/v1/item.proto"}}}
 }
